@@ -29,7 +29,9 @@ for key, v in sorted(SEEDED.items()):
         continue
     dst = f'/verif/seeded/{key}'
     os.makedirs(dst, exist_ok=True)
-    shutil.copy(f'{src}/patch.diff', f'{dst}/patch.diff')
+    old = json.load(open(f'{dst}/meta.json')) if os.path.exists(f'{dst}/meta.json') else {}
+    if 'rebased' not in old:  # a patch rebased by hand onto a later fix is kept
+        shutil.copy(f'{src}/patch.diff', f'{dst}/patch.diff')
     demos = sorted(glob.glob(f'{src}/*_test.go'))
     for d in demos[:1]:
         shutil.copy(d, f'{dst}/{os.path.basename(d)}')
@@ -52,6 +54,8 @@ for key, v in sorted(SEEDED.items()):
         'caught_by_quick_checks': caught,
         'history': v.get('first_missed', ''),
     }
+    if 'rebased' in old:
+        meta['rebased'] = old['rebased']
     json.dump(meta, open(f'{dst}/meta.json', 'w'), indent=1)
     rows.append((key, v['what'], ', '.join(caught) if caught else 'NOT CAUGHT', v.get('first_missed', '')))
 
